@@ -185,10 +185,24 @@ def parenthesizeNested (e : E) (p : PK) : E :=
   | _, _ => e
 
 /-! ## rewrite_between -/
-def rewriteBetween (parentIsNot : Bool) : E → E
+
+/-- `wrap` of rewrite_between (5af9b60): the parent is a Binary, Unary or Predicate that is neither a Connector nor a Paren
+    (NOT is a Unary, so the original NOT case is included) -/
+def pkWrapsBetween : PK → Bool
+  | .not | .neg | .cmp | .is | .between | .inList | .add | .sub | .mul => true
+  | _ => false
+
+def rewriteBetween (p : PK) : E → E
   | .between a lo hi =>
     let r := E.and (.cmp .gte a lo) (.cmp .lte a hi)
-    if parentIsNot then .paren r else r
+    if pkWrapsBetween p then .paren r else r
+  | e => e
+
+/-- snapshot of rewrite_between as it was before 5af9b60 (parentheses only under NOT), kept for the witness theorem -/
+def rewriteBetweenNotOnly (p : PK) : E → E
+  | .between a lo hi =>
+    let r := E.and (.cmp .gte a lo) (.cmp .lte a hi)
+    if p = .not then .paren r else r
   | e => e
 
 /-! ## simplify_not  (`complement` is the regenerated COMPLEMENT_COMPARISONS table) -/
@@ -471,6 +485,15 @@ def coalesceRewrite (skipNull : Bool) (k : Option Cmp) (coalesceLeft : Bool) (fi
     let exprCopy := if coalesceLeft then mkCmpLike k truncated other else mkCmpLike k other truncated
     let constCmp := if coalesceLeft then mkCmpLike k c other else mkCmpLike k other c
     some (.paren (mkOr (mkAnd (.not (.is this .null)) exprCopy) (mkAnd (.is this .null) constCmp)))
+
+/-- the variant in which the guard subject is always the FIRST argument (`this = coalesce.this`) instead of the truncated
+    `COALESCE(a1 … ak)`: kept only for the witness that the whole prefix is needed -/
+def coalesceRewriteFirstArgGuard (k : Option Cmp) (first rest other : E) : Option E :=
+  match splitAtConst true rest with
+  | none => none
+  | some (pre, c) =>
+    let truncated := E.coalesce (.cons first pre)
+    some (.paren (mkOr (mkAnd (.not (.is first .null)) (mkCmpLike k truncated other)) (mkAnd (.is first .null) (mkCmpLike k c other))))
 
 def simplifyCoalesce (fl : Flags) (p : PK) (e : E) : E :=
   match e with
